@@ -174,7 +174,7 @@ def format (j : Json) : Json :=
   let known : Array Json :=
     if !(v5.ok && v4.ok) && lenientOk then
       (if gluedLeftCommodity doc tree formats errLines then #[Json.str "glued-left-commodity"] else #[]) ++
-      (if !v4.ok && blankLineSplitsEntry doc errLines then #[Json.str "trimmed-blank-line-splits-entry"] else #[]) ++
+      (if blankLineSplitsEntry doc errLines then #[Json.str "trimmed-blank-line-splits-entry"] else #[]) ++
       (if crlfBlankComment tree errLines then #[Json.str "crlf-blank-comment"] else #[])
     else #[]
   let why := if !v5.ok then v5.why else v4.why
